@@ -91,10 +91,18 @@ def variants(draw):
         v["flip"] = True
     if "perm" in kinds:
         v["perm"] = draw(st.integers(0, 2 ** 32 - 1))
+    if draw(st.integers(0, 2)) == 0:
+        v["payload"] = draw(st.integers(0, 2 ** 32 - 1))      # FixAtoms on a subset, tags, magmoms, charges on the Atoms object
     return v
 
 
 def variant_labels(v):
+    if v.get("payload") is not None:
+        return ["var:payload"] + _variant_labels(v)
+    return _variant_labels(v)
+
+
+def _variant_labels(v):
     ks = [k for k in ("vacuum", "relabel", "super", "quat", "flip", "perm") if v.get(k) is not None]
     return ["var:" + k for k in ks] if ks else ["var:identity"]
 
@@ -162,6 +170,9 @@ def apply_variant(at, v):
     if v.get("relabel") is not None:
         perm = list(v["relabel"])
         b = Atoms(numbers=b.get_atomic_numbers(), positions=b.get_positions(), cell=np.asarray(b.get_cell())[perm], pbc=np.asarray(b.get_pbc())[perm])
+    if v.get("payload") is not None:
+        b.set_constraint()
+        gc.attach_payload(b, v["payload"])
     return b
 
 
